@@ -59,7 +59,8 @@ def run_shard(shard, ctx):
                      "relinked-visor", "relinked-ustar", "open-by-name-after-fileobj", "pax-size-override-ustar", "pax-size-override-between-visor",
                      "pax-size-before-nonregular-with-offset", "data-inside-header-area", "names-with-magic-text",
                      "ustar-prefix-lengths", "stacked-pax-xsize+g", "stacked-pax-xsize+xpath", "stacked-pax-g+xsize",
-                     "stacked-pax-xpath+xsize", "stacked-pax-Xsize+g", "stacked-pax-xsize+g+xpath", "shared-data-offsets"):
+                     "stacked-pax-xpath+xsize", "stacked-pax-Xsize+g", "stacked-pax-xsize+g+xpath", "shared-data-offsets",
+                     "pax-size-for-visor-member"):
             run_case({"special": what}, ctx)
         return
     if shard.get("high"):
@@ -239,6 +240,30 @@ def _case_special(case, ctx):
                 if ref is not None and ref != exp:
                     raise AssertionError(f"harness: the standard reader disagrees with the expectation: {str(ref)[:200]}")
                 got = _listing(vmtar.open(fileobj=io.BytesIO(img)))
+            elif what == "pax-size-for-visor-member":
+                # a regular visor member whose header leaves the size field 0 and whose real size is in a pax record: its bytes
+                # are the ones at its recorded data offset, and the members behind it are still listed
+                def rec(k, v):
+                    body = f" {k}={v}\n".encode()
+                    n = len(body) + 1
+                    while len(str(n)) + len(body) != n:
+                        n = len(str(n)) + len(body)
+                    return str(n).encode() + body
+
+                got, exp = [], []
+                for extra in ([], [("mtime", "1700000000")], [("path", "renamed/by-pax")]):
+                    body = _data(7, 1500)
+                    payload = b"".join(rec(k, v) for k, v in [("size", str(len(body)))] + extra)
+                    heads = bytearray()
+                    heads += B.hdr("v/first", 600, offset_data=8192)
+                    heads += B.hdr("././@PaxHeader", len(payload), typ=b"x", visor=False) + B.pad512(payload)
+                    heads += B.hdr("v/big", 0, offset_data=12288)
+                    heads += B.hdr("v/last", 5, offset_data=16384)
+                    heads += b"\0" * 1024
+                    img = bytes(heads).ljust(8192, b"\0") + _data(8, 600).ljust(4096, b"\xEE") + body.ljust(4096, b"\xEE") + b"LAST!"
+                    name = dict(extra).get("path", "v/big")
+                    exp.append([("v/first", False, _data(8, 600)), (name, False, body), ("v/last", False, b"LAST!")])
+                    got.append(_listing(vmtar.open(fileobj=io.BytesIO(img))))
             elif what == "pax-size-before-nonregular-with-offset":
                 # a pax size record in front of visor members that are not regular files (directory, symlink, hard link) and whose
                 # header nevertheless records a data offset; further members follow
